@@ -650,6 +650,16 @@ func (c *qfCtx) qf(t *Term, pol int, depth int) *Term {
 			}
 			args[1] = c.qf(t.Args[1], p, depth)
 			args[2] = c.qf(t.Args[2], p, depth)
+		case "=":
+			if pol != 0 && len(t.Args) == 2 && t.Args[0].Sort == SBool && (hasQuantifier(t.Args[0]) || hasQuantifier(t.Args[1])) {
+				// an equivalence with a quantified side: as two implications, so that the universal direction is
+				// instantiated (as a whole it could only be skolemized)
+				a, b := t.Args[0], t.Args[1]
+				return c.qf(And(Implies(a, b), Implies(b, a)), pol, depth)
+			}
+			for i, a := range t.Args {
+				args[i] = c.qf(a, 0, depth)
+			}
 		default:
 			for i, a := range t.Args {
 				args[i] = c.qf(a, 0, depth)
